@@ -56,7 +56,7 @@ def stepUnstable (cx : Ctx) (rc : Recv) (op : String) (args : List String) (robs
         pure { cx.same with status := "ok", toks := ["expected-ok"] }
       else
       match reconstructPerm data robs.st.data line with
-      | none => pure { cx.same with status := "ok", toks := ["perm-not-reconstructible"] }
+      | none => none            -- equal cells on the key line: the permutation cannot be read off the observation (not modelled; S judges)
       | some p =>
         if !(isPermOfRange p && sortedBy le (p.map fun i => getD data (line.getD i 0))) then
           pure { cx.same with status := "ok", toks := ["sort-contract-violated"] }
